@@ -257,8 +257,8 @@ theorem C03_stats (n : Nat) (hn : 0 < n) (l : List Trk) : (shardCounts n l).sum 
 
 /-! ### non-vacuity: a track expiring while still physically live, then handed out once -/
 private def cfg0 : Cfg := { maxIdle := 1, histLen := 3, batchIds := false, thr := 300000 }
-private def st0 : St := { epochs := [(0, 4)], live := [⟨1, 0, 1, 1, none, [1], false⟩, ⟨2, 0, 4, 2, none, [2, 3], false⟩], nextId := 2 }
-example : expired cfg0 st0 ⟨1, 0, 1, 1, none, [1], false⟩ = true := by decide
+private def st0 : St := { epochs := [(0, 4)], live := [(Trk.simple 1 0 1 1 none [1]), (Trk.simple 2 0 4 2 none [2, 3])], nextId := 2 }
+example : expired cfg0 st0 (Trk.simple 1 0 1 1 none [1]) = true := by decide
 example : (idle cfg0 st0 0).map (·.id) = [] ∧ ((wastedOp cfg0 st0).2.map (·.id)) = [1] ∧
     ((wastedOp cfg0 (wastedOp cfg0 st0).1).2.map (·.id)) = [] := by decide
 
